@@ -16,7 +16,7 @@ func init() {
 		Explanation: "Decides structural necessary conditions of C05: (R-C05-1) taint: secret bytes (the value parameter of put, PutRequest.Value, SecretValue.Value, elements of the version maps, the decrypted buffer, the marshalled plaintext) reach no log, error text, http.Error, metrics label, audit record field or file write in packages db, server and audit; the only way to the file is through dekCipher.Encrypt; " +
 			"(R-C05-2) what reaches the file is Marshal(wrapped{Version, DEK, DB}) with exactly those three fields -- no plaintext index, no names (shares R-C03-2/4); (R-C05-3) every file- or directory-creating call in non-test code has a constant mode without group/other bits, and os.Create/os.WriteFile-style calls with laxer defaults do not occur; " +
 			"(R-C05-4) all four AEAD operations pass associated data obtained from aeadContextDEK/aeadContextDB (never nil), reader and writer agree, and the read path feeds the checked wrapped.Version; (R-C05-5) authenticated load: the kv is constructed only past the schema version test and the nil-error edges of ReadWithAssociatedData(.., kek, ..) and of Decrypt, and its secrets are exactly what was decoded from the Decrypt result; " +
-			"(R-C05-6) the key-encryption key is used only while opening/creating: the tink.AEAD parameter of Open flows only to Read/WriteWithAssociatedData and the field kv.kekCipher, that field is never read, and no AEAD other than kv.dekCipher is invoked by anything reachable from a db.DB operation; (R-C05-7) audit.Entry and Principal have no field able to hold secret bytes other than the secret's name.",
+			"(R-C05-6) the key-encryption key is used only while opening/creating: the tink.AEAD parameter of Open flows only to Read/WriteWithAssociatedData and the field kv.kekCipher, that field is never read, and no AEAD other than kv.dekCipher is invoked by anything reachable from a db.DB operation; (R-C05-7) audit.Entry and Principal have no field able to hold secret bytes other than the secret's name. (R-C05-6, extended) package server never invokes a tink.AEAD itself, and the key-encryption-key parameters are found by flow from the exported entry points of package db.",
 		NotDecided:  "Cryptographic strength of the AEAD and behaviour under bit flips/truncation (tink's contract, trusted); scanning real files.",
 		Trusted:     append([]string{"tink AEAD: authenticated encryption, associated data is bound", "keyset.ReadWithAssociatedData fails for a wrong KEK"}, commonTrusted...),
 		Assumptions: []string{"external callees do not retain and later leak their arguments"},
